@@ -4,12 +4,12 @@ from __future__ import annotations
 import ast
 import struct
 
-from sa.astx import NotConst, call_attr, call_name, const_eval, dotted, src, statements, walk_local
+from sa.astx import call_attr, call_name, const_eval, dotted, src, statements
 from sa.selftest import Mutant, Silent
 from sa.source import methods
 from sa.props._lib_h import (assigned_pairs, call_nodes, calls_at, canon, const_is, csrc, def_nodes, edge_path, guarded_by_edges,
                               is_attr, is_empty_const, lin, lincmp_c, local_aliases, need, reaching_defs, self_attr, stmts,
-                              struct_fmt_norm, succ_on, tests, truth_edges, writes_name)
+                              struct_fmt_norm, succ_on, tests, truth_edges)
 
 PROPERTY = "C36"
 CH = "conch/ssh/channel.py"
